@@ -31,7 +31,8 @@ pub fn collect(tier: &str, caps: &Caps, rep: &Report) -> Vec<In> {
             ("quick", 2) => Some(3),
             (_, 2) => None,
             ("quick", _) => Some(3),
-            _ => Some(5),
+            // (triples dev(5) made 11 M inputs and 28 GB of resident state in the two processes)
+            _ => Some(3),
         };
         let st = explore(|ctx| crate::faults::gen(ctx, k), bound, caps, |ch, c| push(&format!("faults({})", k), ch, c.tags.clone(), c.item.render()));
         rep.add_stats(&format!("faults({})", k), &bound.map(|b| format!("dev({})", b)).unwrap_or("full".into()), &st);
